@@ -204,6 +204,9 @@ func cmdRun(args []string) {
 			}
 			seen[v.Sig] = true
 			res := nb.run(v.Replay, "")
+			if !res.confirms(v.Sig) && len(v.Replay.Sched) > 0 {
+				res = nb.stress(v.Replay, "", 500)
+			}
 			fmt.Printf("REPLAY %q confirmed=%v failures=%v\n", v.Sig, res.confirms(v.Sig), res.Failures)
 		}
 	}
